@@ -705,6 +705,21 @@ func (p *Printer) wordPart(wp, next WordPart) {
 		p.w.WriteString(wp.Op.String())
 		p.writeLit(wp.Pattern.Value)
 		p.w.WriteByte(')')
+	case *BraceExp:
+		p.w.WriteByte('{')
+		for i, elem := range wp.Elems {
+			if i > 0 {
+				if wp.Sequence {
+					p.w.WriteString("..")
+				} else {
+					p.w.WriteByte(',')
+				}
+			}
+			if len(elem.Parts) > 0 {
+				p.wordParts(elem.Parts, false)
+			}
+		}
+		p.w.WriteByte('}')
 	case *ProcSubst:
 		// avoid conflict with << and others
 		if p.wantSpace == spaceRequired {
